@@ -701,6 +701,12 @@ pub mod verif {
     }
 
     impl Memfs {
+        /// Another handle on the SAME shared state (what the crate-private `clone` gives), so that the instance a
+        /// test holds can also be put behind the `Vfs` enum. Doesn't emit guard events.
+        pub fn verif_share(&self) -> Memfs {
+            self.clone()
+        }
+
         /// Snapshot of the complete internal state, sorted by key. Doesn't emit guard events.
         pub fn verif_snapshot(&self) -> Snapshot {
             let poisoned = self.0.is_poisoned();
